@@ -446,6 +446,52 @@ def fstree_obs():
     return obs
 
 
+SCAN_EMPTY = dict(region='scan_empty', file='cmdline/scan.c', begin='/* check for disks where all the previously existing files where removed */',
+                  end='/* check for disks without the physical offset support */', max_lines=60, expect_loops=1,
+                  proto='static void region_scan_empty(struct snapraid_state *state, tommy_list scanlist, int is_diff)',
+                  prologue='\ttommy_node *i;\n\ttommy_node *j;\n\tint done;')
+SYNC_PSIZE = dict(region='sync_psize', file='cmdline/sync.c', scope='int state_sync(struct snapraid_state* state, block_off_t blockstart, block_off_t blockcount)',
+                  begin='/* minimum size of the parity files we expect */', end='unrecoverable_error = 0;', end_first_after=True, max_lines=90, expect_loops=1,
+                  proto='static void region_sync_psize(struct snapraid_state *state, block_off_t blockstart, block_off_t blockcount, block_off_t *blockmax_p, struct snapraid_parity_handle *parity_handle)',
+                  prologue='\tblock_off_t blockmax = *blockmax_p;\n\tblock_off_t used_paritymax;\n\tblock_off_t file_paritymax;\n\tunsigned l;\n\tint ret;',
+                  epilogue='\t*blockmax_p = blockmax;')
+STATE_Z = dict(region='state_z', file='cmdline/state.c', scope="} else if (c == 'z') {", begin='uint32_t block_size;', include_begin=True,
+               end="} else if (c == 'y') {", end_first_after=True, max_lines=50, expect_loops=0,
+               proto='static void region_state_z(struct snapraid_state *state, STREAM *f, const char *path)', prologue='\tint ret;')
+STATE_Y = dict(region='state_y', file='cmdline/state.c', scope="} else if (c == 'y') {", begin='uint32_t hash_size;', include_begin=True,
+               end="} else if (c == 'x') {", end_first_after=True, max_lines=50, expect_loops=0,
+               proto='static void region_state_y(struct snapraid_state *state, STREAM *f, const char *path)', prologue='\tint ret;')
+STATE_M = dict(region='state_m', file='cmdline/state.c', scope="} else if (c == 'm' || c == 'M') {", begin='/* find the disk */', include_begin=True,
+               end='map = map_alloc(disk->name, v_pos, v_total_blocks, v_free_blocks, uuid);', end_first_after=True, max_lines=40, expect_loops=0,
+               proto='static void region_state_m(struct snapraid_state *state, char *buffer, char *uuid, STREAM *f, const char *path, struct snapraid_disk **disk_out)',
+               prologue='\tstruct snapraid_disk *disk;', epilogue='\t*disk_out = disk;')
+ILK_REGIONS = [SCAN_EMPTY, SYNC_PSIZE, STATE_Z, STATE_Y, STATE_M]
+
+
+def c14(tier, seed):
+    I = 'harness/h_interlock.c'
+    P = 'harness/h_psize.c'
+    obs = [
+        Ob('ilk.scan.empty_disk.region', I, 'h_scan_empty', inject=ILK_REGIONS, unwind=6, small_path=True, timeout=900, mem=6, cost=5, kind='bounded', bound='1..3 data disks; every value of the seven per-disk change counters',
+           functions=['state_diffscan: region "check for disks where all the previously existing files where removed" (cmdline/scan.c, extracted mechanically)'],
+           note='every counter vector per disk, --force-empty on/off, sync and diff; exit() routed to a checking stub'),
+        Ob('ilk.sync.parity_size.region', I, 'h_sync_psize', inject=ILK_REGIONS, unwind=8, small_path=True, timeout=900, mem=6, cost=8,
+           functions=['state_sync: region "minimum size of the parity files we expect" .. before "unrecoverable_error = 0" (cmdline/sync.c, extracted mechanically)'],
+           note='1..6 parity levels (loop bounded by LEV_MAX, fully unwound), every file size per level, every required size, every start / count, force-full / force-realloc; parity_create / parity_size / parity_used_size by stub; block size 256 (concrete: symbolic division is out of reach)'),
+        Ob('ilk.state.z_record.region', I, 'h_state_z', inject=ILK_REGIONS, unwind=4, small_path=True, timeout=600, mem=6, cost=2,
+           functions=["state_read_content: region 'z' record (cmdline/state.c, extracted mechanically)"], note='every recorded / configured block size, with and without configuration file'),
+        Ob('ilk.state.y_record.region', I, 'h_state_y', inject=ILK_REGIONS, unwind=4, small_path=True, timeout=600, mem=6, cost=2,
+           functions=["state_read_content: region 'y' record (cmdline/state.c, extracted mechanically)"], note='every recorded / configured hash size'),
+        Ob('ilk.state.m_record.region', I, 'h_state_m', inject=ILK_REGIONS, unwind=4, small_path=True, timeout=600, mem=6, cost=2,
+           functions=["state_read_content: region 'm'/'M' record, disk lookup (cmdline/state.c, extracted mechanically)"], note='disk found by name / by UUID / not at all'),
+        Ob('parity.used_size', P, 'h_used_size', unwind=8, small_path=True, timeout=900, mem=6, cost=8, kind='bounded', bound='1..3 disks of at most 5 positions, every block state at every position',
+           functions=['parity_used_size (cmdline/parity.c)', 'block_has_file_and_valid_parity (cmdline/elem.h)'], note='fs_size / fs_par2block_find by stub over a symbolic block table'),
+        Ob('parity.allocated_size', P, 'h_allocated_size', unwind=8, small_path=True, timeout=900, mem=6, cost=8, kind='bounded', bound='1..3 disks of at most 5 positions, every block state at every position',
+           functions=['parity_allocated_size (cmdline/parity.c)', 'block_has_file (cmdline/elem.h)'], note='fs_size / fs_par2block_find by stub over a symbolic block table'),
+    ]
+    return obs
+
+
 def c06(tier, seed):
     Y = 'harness/h_sync.c'
     return [
@@ -522,6 +568,7 @@ PROPS = {
     'C15': dict(level='other', obligations=c15, explanation='', trusted_base=[], assumptions=[], not_covered=[]),
     'C18': dict(level='other', obligations=c18, explanation='', trusted_base=[], assumptions=[], not_covered=[]),
     'C20': dict(level='other', obligations=c20, explanation='', trusted_base=[], assumptions=[], not_covered=[]),
+    'C14': dict(level='other', obligations=c14, explanation='', trusted_base=[], assumptions=[], not_covered=[]),
     'C05': dict(level='other', obligations=c05, explanation='', trusted_base=[], assumptions=[], not_covered=[]),
     'C06': dict(level='other', obligations=c06, explanation='', trusted_base=[], assumptions=[], not_covered=[]),
     'C19': dict(level='other', obligations=c19, explanation='', trusted_base=[], assumptions=[], not_covered=[]),
@@ -687,6 +734,13 @@ PROPS['C06'].update(
     trusted_base=['fs_par2block_find / fs_deallocate / raid_gen / info_set by recording contracts (dfcc replace)', 'memhash by contract', 'region extraction of state_sync_process (3 regions)'],
     assumptions=['bounded: 2 disk slots in quick (3 thorough), block size 8', 'that the bytes hashed are the bytes on disk, the writer threads, parity_write I/O, autosave ordering and histories are not addressed', 'the extent operations are checked against the extent the finder returns (tree lookups, inserts and removals by recording contracts); the global invariants of the two trees (no overlap, every block mapped, monotone positions) are ASSUMED by the search units (they are what fs_check verifies at run time) and fs_check itself is NOT under an obligation', 'search side: the four comparators for all extents / arguments (proof); fs_is_empty, fs_par2extent_get_unlock / fs_par2file_find / fs_par2block_find and fs_size through the REAL tommy_tree_search_compare on search trees of at most 7 extents (bounded)'],
     not_covered=['fs_check, the AVL insert / remove / rebalance of tommy_tree, fs_file2par_find', 'parity_allocated_size / parity_used_size', 'io.c worker threads', 'state_write ordering vs parity_sync'])
+PROPS['C14'].update(
+    explanation='Only the DECISION of five of the seven interlocks, each on the real code (mechanically extracted regions; exit() routed to a checking stub): (1) end of the scan: sync stops with a failing status iff on some disk every previously known file is now missing or rewritten (no unchanged, moved or restored file, and at least one removed or changed) and --force-empty was not given; diff only reports; (2) head of state_sync: sync stops iff the start position is beyond the array, a parity file cannot be opened, or some parity file of ANY level holds fewer whole blocks than parity_used_size() and neither --force-full nor --force-realloc was given - this region ends before the first parity_chsize / state_write / parity write of state_sync; parity_used_size is one past the last synced (BLK) block over all disks, parity_allocated_size one past the last file block; (3) content file records: a block size or hash size different from the configuration (or invalid) is refused, without configuration it is adopted; a recorded disk not found by name nor by UUID is refused, found by UUID is a rename that is saved.',
+    trusted_base=['region extraction of state_diffscan / state_sync / state_read_content (5 regions)', 'parity_create / parity_size / parity_used_size / lev_name / sgetb32 / find_disk_by_name / find_disk_by_uuid by stub', 'the meaning of the scan counters (count_equal, count_move, count_restore, count_change, count_remove) as documented in struct snapraid_scan'],
+    assumptions=['"without altering any content or parity file" is a whole-program ordering / frame statement over the file system and is NOT decided (only: the parity-size region precedes every resize / write inside state_sync; parity_create may still create a missing, empty parity file)', 'the zero-size interlock (scan_file) and the lock file (flock in snapraid.c) are NOT under an obligation', 'how scan_file increments the counters is NOT under an obligation', 'bounded: 1..3 disks; block size 256 in the parity-size region; parity files below 2^32 blocks; -B start + count below 2^32'],
+    not_covered=['scan_file / scan_dir (counters, zero-size check)', 'lock_lock / lock_unlock (cmdline/support.c, snapraid.c)', 'main(): order of state_read / state_scan / state_sync', 'that a refusal leaves every file byte-identical'])
+MANIFEST_TEXT['C14'] = dict(level_text='Narrow: the refuse / proceed decision of the empty-disk, short-parity, block-size, hash-size and missing-disk interlocks is decided for all inputs on the extracted regions; that nothing was modified before the refusal, the zero-size interlock and the lock are not - level other.',
+                            design_ref='DESIGN.md section 4', level_note='regions by mechanical extraction; callees by stub; frame over the file system not decided', technique='CBMC drivers on mechanically extracted regions of real cmdline/scan.c, sync.c, state.c; bounded unit on real cmdline/parity.c')
 PROPS['C19'] = dict(level='other', obligations=c19)
 PROPS['C19'].update(
     explanation='What sync does with the hash of a block just read (region of state_sync_process, every block state / recorded hash / digest / hash size / migration flag): a block whose hash is only provisional (REP: inherited from a file with the same name, size and time-stamp, or replaced data) and does not match the data stops the stripe with a plain error - it is neither recorded nor "repaired" from parity, its state and hash are kept; a synced (BLK) block that no longer matches is a silent error queued for in-memory repair; matching data raises nothing; a pending (CHG) block forces a parity update unless its fresh hash equals a unique recorded one. Together with the completion region of C06 (no BLK unless the stripe had no error) this is "the data is hashed before its stripe is recorded as synced, and a mismatch stops the stripe".',
